@@ -48,7 +48,7 @@ def run(ctx):
     # socket-level tier: the output of `sx arp --json` (a superseded line included) piped into `sx tcp` as its ARP cache, no gateway MAC:
     # destination MACs read off the wire; destinations without an entry are not probed
     # with two default routes in the namespace the fall-back MAC is the cache entry of the gateway of the scan interface
-    mine = ("tcp-from-arp-output", "tcp-gateway-of-scan-interface", "tcp-cache-on-stdin-file")
+    mine = ("tcp-from-arp-output", "tcp-gateway-of-scan-interface", "tcp-cache-on-stdin-file", "tcp-cache-v6-no-gateway")
     for focus in ("source", "coverage"):
         n3, rej = wt.run_wire(ctx, select=lambda s: s["name"] in mine, label="c11w" + focus[0], focus=focus)
         wt.report(ctx, "C11", rej, names=lambda b: b["name"] in mine)
